@@ -27,7 +27,7 @@ def run(ctx, out):
     d0 = ctx.work.fresh("c14")
     out.rule = ("FIFOs, sockets, character devices (majors/minors incl. > 255 and > 20 bit) x modes x umask {0,022,077} x sole "
                 "source or inside a tree x fresh / existing destination entry (file, same kind, link to a file, link to a directory) x --no-clobber x both drivers x {none, --ownership, --fsync, --no-timestamps}; "
-                "block devices must fail; non-trivial = every case (a node is created or refused); distinct = case tuple")
+                "block devices must fail; nodes copied to a path whose parent is missing, trees in which one mknod answers ENOENT / ENOTDIR / EEXIST / ENOSPC (exit 0 only with every node present); non-trivial = every case (a node is created or refused); distinct = case tuple")
     cases = []
     for kind in KINDS:
         for umask in (0, 0o022, 0o077):
@@ -127,6 +127,40 @@ def run(ctx, out):
             out.violation("a block device in the tree did not make the run fail", dict(argv=argv, exit=r.exit))
         shutil.rmtree(d, ignore_errors=True)
     # trees in which special nodes travel with ordinary files of every mode (private 0600 ones among them), several workers,
+    # a node that CANNOT be made — the destination's parent directory does not exist, or mknod answers ENOENT / ENOTDIR / EEXIST /
+    # ENOSPC for one node of a tree: `copied by creating a node` leaves two outcomes, the node exists as specified or the run fails
+    k2 = 0
+    for driver in ("parfile", "parblock"):
+        for kind in KINDS:
+            k2 += 1
+            d = os.path.join(d0, "np%d" % k2)
+            os.makedirs(d)
+            mk(kind, os.path.join(d, "node"), 0o644, DEVS[0])
+            argv = [ctx.bins["xcp"], "--driver", driver, "-w", "2", "node", "missing/dir/node"]
+            r = xcp.run_supervised(sup, argv, d, d, tag="np", umask=0o022, timeout_ms=20000)
+            out.case(("node-missing-parent", driver, kind), True)
+            out.count("node_destination_parent_missing")
+            if r.exit == 0 and not os.path.lexists(os.path.join(d, "missing", "dir", "node")):
+                out.violation("exit 0 but no node at missing/dir/node (a %s copied to a path whose parent directory does not exist)" % kind,
+                              dict(argv=argv[1:], exit=r.exit, stderr=r.stderr[-200:]))
+            shutil.rmtree(d, ignore_errors=True)
+        for errno in (2, 20, 17, 28):
+            for nth in (1, 2, 3):
+                k2 += 1
+                d = os.path.join(d0, "nf%d" % k2)
+                os.makedirs(os.path.join(d, "src"))
+                for i3 in range(3):
+                    os.mkfifo(os.path.join(d, "src", "p%d" % i3))
+                argv = [ctx.bins["xcp"], "-r", "-T", "--driver", driver, "-w", str(rng.choice([1, 2])), "src", "dst"]
+                rules = [("fail", errno, 0, "mknodat", nth, "*")]
+                r = xcp.run_supervised(sup, argv, d, d, rules=rules, tag="nf", umask=0o022, timeout_ms=20000)
+                out.case(("node-mknod-fault", driver, errno, nth), True)
+                out.count("node_mknod_faults")
+                have = [i3 for i3 in range(3) if os.path.lexists(os.path.join(d, "dst", "p%d" % i3))]
+                if r.exit == 0 and len(have) != 3:
+                    out.violation("exit 0 but only %d of 3 FIFOs exist at the destination (mknod #%d answered errno %d)" % (len(have), nth, errno),
+                                  dict(argv=argv[1:], rules=rules, exit=r.exit, stderr=r.stderr[-200:]))
+                shutil.rmtree(d, ignore_errors=True)
     # threads held at random and at every umask() call the program might make: the mode of a node depends on the source's
     # mode and the umask xcp was STARTED with, never on what another worker is doing at that moment
     for k in range(4 if quick else 40):
